@@ -60,7 +60,12 @@ var facts = []fact{
 	{"binaryEmit", "List (String × List String)", "[]", binaryEmitFact},
 	{"syncTokens", tyStrs, "[]", syncFact},
 	{"stmtDispatch", tyStrs, "[]", stmtDispatchFact},
+	{"tokensBufSize", tyNat, "0", func(p *pkg) (string, string, error) { return natConstFact(p, "tokensBufSize") }},
+	{"concSkeleton", "List (String × List String)", "[]", concSkeletonFact},
+	{"chanUsers", tyStrs, "[\"?\"]", chanUsersFact},
 }
+
+func sortStrings(xs []string) { sort.Strings(xs) }
 
 // ---- enumerations ----
 
